@@ -11,6 +11,7 @@ package dtls
 import (
 	"bytes"
 	"fmt"
+	"net"
 	"os"
 	"runtime"
 	"sort"
@@ -375,6 +376,85 @@ func vfC08Trickle(res *vfResult, v vfVariant, tgt string) {
 	n.SetOnSend(nil)
 	p.Close()
 	synctest.Wait()
+}
+
+// vfC08ListenerFlood (real time, loopback UDP): a listener whose application is busy - it has not called Accept yet -
+// receives one datagram that opens a pending connection and then a flood of undecodable datagrams from the same
+// address. What the listener holds for that connection must stay within a fixed limit.
+func vfC08ListenerFlood(res *vfResult, ver string) {
+	res.Eval(1)
+	pki := vfGetPKI()
+	so := vfSO(append(vfVerOpts(ver), WithCertificates(pki.Leaf("ecdsa", "server")))...)
+	ln, err := ListenWithOptions("udp", &net.UDPAddr{IP: net.IPv4(127, 0, 0, 1)}, so...)
+	if err != nil {
+		res.Inconc("listener: " + err.Error())
+
+		return
+	}
+	defer func() { _ = ln.Close() }()
+	sock, err := net.DialUDP("udp", nil, ln.Addr().(*net.UDPAddr)) //nolint:forcetypeassert
+	if err != nil {
+		res.Inconc("flood socket: " + err.Error())
+
+		return
+	}
+	defer func() { _ = sock.Close() }()
+	r := vfRand("C08/listener-flood/"+ver, 0)
+	// something that looks like the start of a handshake opens the pending connection
+	_, _ = sock.Write(vfLegacyRecord(22, 0xfeff, 0, 0, nil, -1, vfHSFragment(1, 40, 0, 0, 40, vfRandBytes(r, 40))))
+	const total, size = 24000, 1200
+	sent := 0
+	for i := 0; i < total; i++ {
+		if _, err := sock.Write(vfRandBytes(r, size)); err == nil {
+			sent++
+		}
+		if i%64 == 63 {
+			time.Sleep(time.Millisecond) // stay below the socket's receive buffer
+		}
+	}
+	time.Sleep(200 * time.Millisecond)
+	type acc struct {
+		c   net.Conn
+		err error
+	}
+	ch := make(chan acc, 1)
+	go func() { c, err := ln.Accept(); ch <- acc{c, err} }()
+	var a acc
+	select {
+	case a = <-ch:
+	case <-time.After(5 * time.Second):
+		res.Count("listener_flood_accept_timeout", 1)
+
+		return
+	}
+	if a.err != nil {
+		res.Count("listener_flood_accept_failed", 1)
+
+		return
+	}
+	conn, _ := a.c.(*Conn)
+	defer func() { _ = conn.Close() }()
+	type buffered interface{ VFBuffered() (int, int) }
+	var inner any = conn.nextConn
+	if u, ok := inner.(interface{ Conn() net.PacketConn }); ok {
+		inner = u.Conn()
+	}
+	b, ok := inner.(buffered)
+	if !ok {
+		res.Inconc(fmt.Sprintf("listener flood: no access to the pending connection's buffer (%T)", inner))
+
+		return
+	}
+	pk, by := b.VFBuffered()
+	res.NonTrivial("listener-flood/" + ver)
+	res.Count("listener_flood_datagrams_sent", int64(sent))
+	res.Max("max_listener_buffered_packets", int64(pk))
+	res.Max("max_listener_buffered_bytes", int64(by))
+	if by > 8<<20 {
+		res.Violate("C08:limit:listenerBuffer",
+			fmt.Sprintf("DTLS %s listener: %d undecodable datagrams of %d bytes from one unauthenticated address, sent while the application had not called Accept; the pending connection holds %d datagrams / %d bytes", ver, sent, size, pk, by),
+			map[string]any{"listener_flood": ver})
+	}
 }
 
 func vfVerClass(v vfVariant) string {
@@ -771,6 +851,10 @@ func TestVF_C08(t *testing.T) {
 			}
 		}
 		vfBubbles(t, len(tv)*2, func(t *testing.T, i int) { vfC08Trickle(res, tv[i/2], []string{"c", "s"}[i%2]) })
+	}
+	if len(only) == 0 {
+		vfC08ListenerFlood(res, "12")
+		vfC08ListenerFlood(res, "13")
 	}
 	res.Count("heap_delta_kb", int64(vfHeap()-heap0)/1024)
 	if len(only) == 0 {
